@@ -577,11 +577,11 @@ def check_property(prop, tier, seed, only=None):
     scratch = new_scratch(pid)
     src = os.path.join(scratch, "src")
     tdir = os.path.join(scratch, "target")
-    logdir = os.path.join(VERIF, "logs", pid)
+    logdir = os.path.join(os.environ.get("VERIF_LOG_DIR", os.path.join(VERIF, "logs")), pid)
     shutil.rmtree(logdir, ignore_errors=True)
     os.makedirs(logdir, exist_ok=True)
     if only is None:
-        shutil.rmtree(os.path.join(VERIF, "replays", pid), ignore_errors=True)
+        shutil.rmtree(os.path.join(os.environ.get("VERIF_REPLAY_DIR", os.path.join(VERIF, "replays")), pid), ignore_errors=True)
     steps = []
     out_lines = []
     violations = []
@@ -682,7 +682,7 @@ def check_property(prop, tier, seed, only=None):
             rep = native_replay(j, rsrc, test, logdir) if test else {"reproduced": False, "why": "no concrete playback produced"}
             r["replay"] = rep
             if rep.get("reproduced"):
-                rdir = os.path.join(VERIF, "replays", pid)
+                rdir = os.path.join(os.environ.get("VERIF_REPLAY_DIR", os.path.join(VERIF, "replays")), pid)
                 os.makedirs(rdir, exist_ok=True)
                 rpath = os.path.join(rdir, j.harness + ".rs")
                 with open(rpath, "w") as f:
@@ -784,8 +784,9 @@ def write_evidence(prop, tier, seed, jobs, results, steps, confirmed, inconclusi
         "wall_s": round(wall, 1),
         "violations": len(confirmed),
     }
-    os.makedirs(os.path.join(VERIF, "evidence"), exist_ok=True)
-    with open(os.path.join(VERIF, "evidence", pid + ".json"), "w") as f:
+    evdir = os.environ.get("VERIF_EVIDENCE_DIR", os.path.join(VERIF, "evidence"))
+    os.makedirs(evdir, exist_ok=True)
+    with open(os.path.join(evdir, pid + ".json"), "w") as f:
         json.dump(ev, f, indent=1)
 
 
